@@ -22,9 +22,9 @@ TASK_WEIGHTS = {
             "valedit": 1, "algebra": 1, "facealg": 1, "cloner": 1, "prober": 1.5},
     "C03": {"editor": 5, "implicit": 2, "explicit": 2, "cloner": 2, "valedit": 2,
             "algebra": 1, "split": 1, "prober": 2},
-    "C04": {"implicit": 5, "builder": 3, "editor": 2, "valedit": 1, "cloner": 1,
+    "C04": {"implicit": 5, "builder": 3, "editor": 2, "valedit": 1, "cloner": 1, "algebra": 0.5,
             "split": 1, "scribbler": 1, "prober": 2.5},
-    "C12": {"explicit": 3, "split": 2, "implicit": 3, "fixedpoint": 3, "editor": 1.5,
+    "C12": {"explicit": 3, "split": 2, "implicit": 3, "fixedpoint": 3, "editor": 1.5, "algebra": 1,
             "valedit": 1, "cloner": 1, "prober": 2},
 }
 
